@@ -2,8 +2,8 @@
 # also when the same sub-formula text occurs more than once.
 import json
 import math
-from harness import fml
-from harness.common import parse_fields
+from harness import fml, names
+from harness.common import parse_fields, run_impl
 from harness.runner import Check, online_case, offline_case, time_column, need_vars, expect_vals
 
 
@@ -50,7 +50,12 @@ class C02(Check):
     RULE = ('feature cover (every past operator x boundary bounds x duplicated stateful text x n in {1,2,5,9}) then seeded random past formulas '
             '(30% with a forced duplicate stateful sub-term); every update() output compared with the model and with rho at that sample; '
             '15% of the cases with bounded operators written with explicit units / another default unit / period unit; plus specifications with 1-4 named sub-specifications (nested, repeated); plus the four IA-STL semantics with random input/output assignments (values on the thresholds of strict comparisons included); '
-            'non-trivial = formula with >= 3 nodes containing a stateful operator; distinct by (formula, data)')
+            'non-trivial = formula with >= 3 nodes containing a stateful operator; distinct by (formula, data); '
+            'stream names: random specification texts (all operators, aliases, unless, odd identifiers, object fields, literals of every form, declared constants nan/inf/-0, '
+            'intervals with units / fractions / constants, 0-2 named sub-specifications; STL discrete, dense and the LTL front end), parsed and (60%) pastified: every node of every '
+            'assertion dumped by the impl call [names]; node.name = nname of the dump (NodeName.v), nwf holds, no two different dumps of one specification share a name; '
+            'stream named-monitor: random past-time forests (sub-specifications, duplicated stateful sub-terms, one bound in several unit spellings) with integer data: '
+            'every update() = nmon_run of the monitor keyed by node names (OnlineNamed.v) on the dumped forest')
 
     def gen_cases(self, rng, tier):
         items = [(f, n, 2) for (f, n) in past_cover()]
@@ -114,6 +119,10 @@ class C02(Check):
         for c in gen_modular(rng, tier, 120, 1500, gen_kwargs={'future': False}, base=False):
             c['fkey'] = fml.to_sx(c['f'])
             cases.append(c)
+        # node names: the printer model, and the monitor keyed by names (generated last: the streams above keep their cases)
+        nn = 150 if tier == 'quick' else 3000
+        cases.extend(names.gen_names_case(rng) for _ in range(nn))
+        cases.extend(names.gen_named_case(rng) for _ in range(nn))
         return cases
 
     def load_case(self, c):
@@ -133,12 +142,18 @@ class C02(Check):
         return c
 
     def model_lines(self, c):
+        if 'stream' in c:
+            return []          # built from the dumps rtamt returns: evaluate() below
         pk = 'std'
         if c.get('sem'):
             pk = '(iaspec %s (%s))' % (c['sem'], ' '.join(str(b) for b in c['io']))
         return ['(on %s (%s) %d %s)' % (pk, fml.to_sx(c['f']), c['n'], fml.trace_sx(c['cols']))]
 
     def impl_cases(self, c):
+        if c.get('stream') == 'names':
+            return [names.names_impl_case(c)]
+        if c.get('stream') == 'named':
+            return [names.named_impl_case(c)]
         kw = dict(c.get('spell', {}))
         if c.get('sem'):
             kw.update({'io': {fml.VARS[i]: ('input' if c['io'][i] else 'output') for i in range(c['nv'])}, 'semantics': c['sem'], 'ctor': c.get('ctor', 'combined')})
@@ -156,6 +171,8 @@ class C02(Check):
         return out
 
     def nontrivial(self, c):
+        if 'stream' in c:
+            return True
         return fml.size(c['f']) >= 3 and bool(fml.ops(c['f']) & {'prev', 'sprev', 'once', 'hist', 'since', 'oncet', 'histt', 'sincet', 'rise', 'fall'})
 
     def judge(self, c, mlines, ires):
@@ -188,13 +205,99 @@ class C02(Check):
         return 'ok', None
 
     def describe(self, c):
+        if 'stream' in c:
+            return {k: c[k] for k in ('stream', 'monitor', 'unit', 'period', 'spec', 'n', 'cols') if k in c}
         d = {'spec': 'out = ' + fml.to_text(c['f']), 'n': c['n'], 'data': c['cols']}
         if c.get('sem'):
             d.update({'semantics': c['sem'], 'inputs': [fml.VARS[i] for i in range(c['nv']) if c['io'][i]]})
         return d
 
     def features(self, c):
+        if 'stream' in c:
+            return ['stream:' + c['stream']]
         return Check.features(self, c) + ([c['sem']] if c.get('sem') else [])
+
+    # the two streams about node names are two-phase: the model commands are built from what rtamt returns
+    def evaluate(self, model, cs, interactive=False):
+        cs = [self.normalize(c) for c in cs]
+        verdicts = [None] * len(cs)
+        plain = [k for k, c in enumerate(cs) if 'stream' not in c]
+        for k, v in zip(plain, Check.evaluate(self, model, [cs[k] for k in plain], interactive) if plain else []):
+            verdicts[k] = v
+        late = [k for k, c in enumerate(cs) if 'stream' in c]
+        if not late:
+            return verdicts
+        ires = run_impl([self.impl_cases(cs[k])[0] for k in late])
+        lines, plans = [], []
+        for k, i in zip(late, ires):
+            c = cs[k]
+            plan = {'verdict': None, 'spans': []}
+            plans.append(plan)
+            if i['setup']['status'] != 'ok':
+                # a random text the parser rejects is no case; anything else than RTAMTException is reported
+                plan['verdict'] = ('dropped', None) if i['setup']['status'] == 'rtamt' else ('violation', {'expected': 'parse() returns or raises RTAMTException', 'observed': i['setup']})
+                continue
+            try:
+                if c['stream'] == 'names':
+                    calls = i['calls']
+                    forests = [calls[0]] + ([calls[2]] if len(calls) == 3 and calls[1]['status'] == 'ok' else [])
+                    for f in forests:
+                        if f['status'] != 'ok':
+                            plan['verdict'] = ('violation', {'expected': 'the nodes of the specification', 'observed': f})
+                            break
+                        ls = ['(nname %s)' % names.dump_sx(d, []) for d in f['value']]
+                        plan['spans'].append((len(lines), len(ls), f['value']))
+                        lines.extend(ls)
+                else:
+                    f = i['calls'][0]
+                    if f['status'] != 'ok':
+                        plan['verdict'] = ('violation', {'expected': 'the nodes of the specification', 'observed': f})
+                    else:
+                        plan['spans'].append((len(lines), 1, f['value']))
+                        lines.append(names.nmon_line(c, f['value']))
+            except Exception as exc:
+                plan['verdict'] = ('violation', {'expected': 'a node tree of the form NodeName.node (non-negative bounds, known classes)', 'observed': repr(exc)})
+        mres = ([model.one(l) for l in lines] if interactive else model.batch(lines))
+        for k, i, plan in zip(late, ires, plans):
+            c = cs[k]
+            if plan['verdict'] is not None:
+                verdicts[k] = plan['verdict']
+                continue
+            if c['stream'] == 'names':
+                v = ('ok', None)
+                for (a, m, forest) in plan['spans']:
+                    v = names.judge_names_call(forest, mres[a:a + m])
+                    if v[0] != 'ok':
+                        break
+                    self.names_nodes = getattr(self, 'names_nodes', 0) + v[1]
+                if v[0] == 'ok':
+                    self.stream_names = getattr(self, 'stream_names', 0) + 1
+                    self.names_pastified = getattr(self, 'names_pastified', 0) + (len(plan['spans']) == 2)
+                    v = ('ok', None)
+                verdicts[k] = v
+            else:
+                (a, m, forest) = plan['spans'][0]
+                line = mres[a]
+                obs = []
+                bad = None
+                for r in i['calls'][1:]:
+                    if r['status'] != 'ok':
+                        bad = r
+                        break
+                    obs.append(str(r['value']))
+                det = {'expected': {'source': 'nmon_run on the dumped forest (OnlineNamed.v; = rho by C02_online_named)', 'values': line}, 'observed': bad if bad else obs}
+                if not line.startswith('NMON') or line == 'NMON NONE':
+                    verdicts[k] = ('model-error', line[:300])
+                elif bad is not None or line.split()[1:] != obs:
+                    verdicts[k] = ('violation', det)
+                else:
+                    self.stream_named = getattr(self, 'stream_named', 0) + 1
+                    verdicts[k] = ('ok', None)
+        return verdicts
+
+    def extra_evidence(self):
+        return {'stream_names': getattr(self, 'stream_names', 0), 'stream_names_pastified': getattr(self, 'names_pastified', 0),
+                'stream_names_nodes': getattr(self, 'names_nodes', 0), 'stream_named': getattr(self, 'stream_named', 0)}
 
 
 def main(tier, seed, replay=None):
